@@ -283,9 +283,6 @@ func ruleRolloverSiblings(r *Report) {
 			if v == ssa.Value(limit) {
 				return "LIMIT", true
 			}
-			if p, ok := v.(*ssa.Phi); ok && p.Comment == "written" {
-				return "POS", true
-			}
 			return "", false
 		}}
 		found := false
